@@ -677,15 +677,23 @@ class Renderer:
                     not ln.text.lower().startswith(NOLABEL) and "=" in ln.text and "::" not in ln.text:
                 label = str(ch.choice([10, 20, 100, 9999]))
                 self.used.setdefault("fixed-label", set()).add("yes")
-            pieces = self.break_fixed(ln.text) if not ln.nobreak else [ln.text]
+            width = 66 if length_limit else ch.choice([66, 90, 110, 110])
+            pieces = self.break_fixed(ln.text, width) if not ln.nobreak else [ln.text]
             rows = []
+            between = {}          # row index -> comment / blank lines in front of that continuation line
             for i, pc in enumerate(pieces):
                 if i == 0:
                     rows.append(f"{label:>5} " + pc if label and ch.bool() else f"{label:<5} " + pc)
                 else:
                     cc = ch.choice(list("&+$1*x.!>#")) if self.feat.get("fixed_contchars", True) else "&"
                     self.used.setdefault("fixed-contchar", set()).add(cc)
+                    if self.feat.get("comments", True) and ch.bool(1, 4):
+                        between[len(rows)] = [ch.choice(["C between", "c it's", "* x = 1", "! plain", "", "   "])
+                                              for _ in range(ch.count(1, 2))]
+                        self.used.setdefault("fixed-comment-between-continuation", set()).add("yes")
                     rows.append("     " + cc + pc)
+            if not length_limit and any(len(r) > 72 for r in rows):
+                self.used.setdefault("fixed-long-line", set()).add("yes")
             if any(len(r) > 72 for r in rows) and length_limit:
                 self.fixed_ok = False
             # inline documentation on the last physical line of the statement
@@ -697,6 +705,7 @@ class Renderer:
                     inline = ln.post[0]
                     self.used.setdefault("fixed-inline-doc", set()).add("yes")
             for i, row in enumerate(rows):
+                out.extend(between.get(i, []))
                 if length_limit and self.feat.get("fixed_seqfield", True) and ch.bool(1, 6) and len(row) <= 72:
                     row = row.ljust(72) + ch.choice(self.feat.get("seq_pool") or ["SEQ00010", "12345678", "x = 1", "abc"])
                     self.used.setdefault("fixed-seqfield", set()).add("yes")
@@ -715,17 +724,20 @@ class Renderer:
             prev_alt = bool(ln.post) and ln.docsty == "post_alt"
         return "\n".join(out) + "\n"
 
-    def break_fixed(self, txt):
+    def break_fixed(self, txt, width=66):
         """Split a statement into pieces that fit columns 7-72 (66 chars), at safe points."""
-        width = 66
         pieces = []
         rest = txt
-        force = self.ch.bool(1, 5)
+        force = self.ch.bool(1, 3)
         while len(rest) > width or (force and len(rest) > 12):
             pts = [p for p in safe_break_points(rest) if p <= width]
             if not pts:
                 break
-            k = self.ch.choice(pts) if force else pts[-1]
+            long_pts = [p for p in pts if p > 66]
+            if width > 66 and long_pts:
+                k = self.ch.choice(long_pts)      # limit off: continue a line that runs past column 72
+            else:
+                k = self.ch.choice(pts) if force else pts[-1]
             pieces.append(rest[:k])
             rest = rest[k:]
             force = False
